@@ -20,6 +20,19 @@ def run(tier):
         path = os.path.join(wd, name + ".zck"); open(path, "wb").write(buf)
         info[name] = (path, buf, plain)
         scripts.append("case %s 20\nctx 0\nopen 0 %s r\ninit_read 0 0\ndump 0\nend\n" % (name, path))
+    # twins of the headers the reference accepts: an option call the fresh context accepts (ZCK_NO_WRITE, ZCK_UNCOMP_HEADER)
+    # comes before the open; what is reported after a successful open is still the file's
+    twins = []
+    for (name, buf, plain) in fam:
+        h = ref.parse_header(buf)
+        if h.ok and h.sealed and h.supported and hdrfam.fits(h) and (tier != "quick" or len(twins) < 90):
+            opt, val = [(5, 1), (4, 1), (5, 0)][len(twins) % 3]
+            tname = "%s+opt%d=%d" % (name, opt, val)
+            info[tname] = (info[name][0], buf, plain)
+            scripts.append("case %s 20\nctx 0\nopen 0 %s r\nioption 0 %d %d\ninit_read 0 0\ndump 0\nend\n" % (tname, info[name][0], opt, val))
+            twins.append((tname, buf, plain))
+    fam = list(fam) + twins
+    ck.extra["twins_with_an_option_call_before_the_open"] = len(twins)
     nproc = 8
     parts = ["".join(scripts[i::nproc]) for i in range(nproc)]
     evs = [e for part in common.run_driver_parallel(parts, "plain") for e in part]
@@ -48,7 +61,7 @@ def run(tier):
     ntool = 0
     for (name, buf, plain) in fam:
         h = ref.parse_header(buf)
-        if not (h.ok and h.sealed and h.supported and hdrfam.fits(h)):
+        if "+opt" in name or not (h.ok and h.sealed and h.supported and hdrfam.fits(h)):
             continue
         if tier == "quick" and ntool >= 60:
             break
@@ -118,7 +131,8 @@ def run(tier):
         path, buf, plain = info[name]
         keep = os.path.join(common.REPLAY, "C13-%s.zck" % name); open(keep, "wb").write(buf)
         what = "header %s: %s not explained by the Header contract: %s" % (name, ev["op"], json.dumps(ev)[:500])
-        ck.violation(what, "case %s 20\nctx 0\nopen 0 %s r\ninit_read 0 0\ndump 0\nend\n" % (name, keep), {"event": ev})
+        scr = next((x for x in scripts if x.startswith("case %s 20\n" % name)), "").replace(path, keep)
+        ck.violation(what, scr, {"event": ev})
         remaining = remaining[bad_i + 1:]
         if not remaining:
             break
